@@ -147,6 +147,14 @@ func runHistories(cfg runCfg, res *Result, n int, gen func(i int) History) error
 			return err
 		}
 		if m == nil {
+			if why := e.integrity(); why != "" {
+				m = &Mismatch{Index: len(h.Ops) - 1, Op: "(internal structure after the history)", Why: why, History: h}
+				res.Mismatches = append(res.Mismatches, m)
+				res.Replays = append(res.Replays, writeReplay(cfg.replayDir, cfg.prop, m, cfg.seed, len(res.Mismatches)))
+				if len(res.Mismatches) >= 5 {
+					break
+				}
+			}
 			continue
 		}
 		// confirm (timing flukes do not reproduce), then shrink
@@ -220,6 +228,11 @@ func replayFile(cfg runCfg, res *Result) error {
 	}
 	res.Histories = 1
 	res.Steps = e.Steps
+	if m == nil {
+		if why := e.integrity(); why != "" {
+			m = &Mismatch{Index: len(h.Ops) - 1, Op: "(internal structure after the history)", Why: why, History: h}
+		}
+	}
 	if m != nil {
 		res.Mismatches = append(res.Mismatches, m)
 	}
@@ -238,6 +251,7 @@ func familyStream(weights map[string]int, hostile bool, quickN, thoroughN, lengt
 		}
 		return runHistories(cfg, res, n, func(i int) History {
 			var ops []Op
+			g.newHistory()
 			ops = append(ops, g.seedOps(1)...)
 			l := 3 + g.r.Intn(length)
 			for j := 0; j < l; j++ {
@@ -265,7 +279,53 @@ func init() {
 	streams["C02"] = familyStream(map[string]int{"string": 12, "key": 1, "expire": 1, "list": 1}, true, 150, 3000, 25)
 	streams["C03"] = familyStream(map[string]int{"list": 12, "key": 1, "string": 1}, true, 150, 3000, 25)
 	streams["C04"] = familyStream(map[string]int{"hash": 12, "key": 1, "string": 1}, true, 150, 3000, 25)
-	streams["C05"] = familyStream(map[string]int{"set": 12, "key": 1, "string": 1}, false, 150, 3000, 25)
+	c05a := familyStream(map[string]int{"set": 12, "key": 1, "string": 1}, false, 120, 2500, 25)
+	streams["C05"] = func(cfg runCfg, res *Result) error {
+		if err := c05a(cfg, res); err != nil {
+			return err
+		}
+		// long churn: few keys, six members, hundreds of operations — table growth, shrink and
+		// removal counters of the set dictionaries come into play
+		g := newGen(cfg.seed + 7919)
+		g.keys = []string{"ka", "kb", "kc"}
+		mem := func() string { return g.pick("a", "b", "c", "d", "e", "x") }
+		n := 14
+		if cfg.tier == "thorough" {
+			n = 300
+		}
+		return runHistories(cfg, res, n, func(i int) History {
+			var ops []Op
+			l := 150 + g.r.Intn(250)
+			for j := 0; j < l; j++ {
+				switch x := g.r.Intn(100); {
+				case x < 30:
+					ops = append(ops, mkOp(1, "SADD", g.key(), mem(), mem()))
+				case x < 55:
+					ops = append(ops, mkOp(1, "SREM", g.key(), mem()))
+				case x < 60:
+					// churn on one member: the removal counter grows while the set stays the same
+					k, m := g.key(), mem()
+					for c := 0; c < 6+g.r.Intn(14); c++ {
+						ops = append(ops, mkOp(1, "SADD", k, m), mkOp(1, "SREM", k, m))
+					}
+				case x < 72:
+					ops = append(ops, mkOp(1, g.pick("SINTER", "SUNION", "SDIFF"), g.key(), g.key()))
+				case x < 78:
+					ops = append(ops, mkOp(1, g.pick("SINTER", "SUNION", "SDIFF"), g.key(), g.key(), g.key()))
+				case x < 86:
+					ops = append(ops, mkOp(1, g.pick("SINTERSTORE", "SUNIONSTORE", "SDIFFSTORE"), g.key(), g.key(), g.key()))
+				case x < 90:
+					ops = append(ops, mkOp(1, "SMOVE", g.key(), g.key(), mem()))
+				case x < 94:
+					ops = append(ops, mkOp(1, "SINTERCARD", "2", g.key(), g.key(), "LIMIT", g.pick("0", "1", "2")))
+				default:
+					ops = append(ops, mkOp(1, "SMEMBERS", g.key()), mkOp(1, "SCARD", g.key()))
+				}
+			}
+			ops = append(ops, g.observeAll(1)...)
+			return History{Ops: ops}
+		})
+	}
 	streams["C06"] = familyStream(map[string]int{"string": 3, "list": 3, "hash": 3, "set": 3, "key": 6, "expire": 2, "bits": 1}, false, 150, 3000, 30)
 	streams["C18"] = familyStream(map[string]int{"bits": 12, "string": 1, "key": 1}, false, 150, 3000, 25)
 }
